@@ -20,6 +20,7 @@ UNI = {"SF": "╠ ", "CF": "║ ", "LEAF": "╚ ", "SC": "├ ", "CC": "│ ", "
        "SCH": "─ ", "COD": "└ ", "CCH": "  ", "ERR": "  "}
 ASC = {"SF": "+ ", "CF": "| ", "LEAF": "+ ", "SC": ". ", "CC": "  ", "SCC": "  ", "SCH": ". ", "COD": "` ", "CCH": "  ", "ERR": "  "}
 NPOOL = 40
+BOX = set("".join(UNI.values()))
 
 
 def write_pool(path):
@@ -42,7 +43,8 @@ class Mgr:
         return False
 
     def __repr__(self):
-        return "<Mgr %d>" % self.i
+        # every third manager has a name outside ASCII: ascii_only is about the MARKERS, the text stays what it is
+        return ("<Mgr \u2116%d \u00fcber>" if self.i % 3 == 0 else "<Mgr %d>") % self.i
 
 
 class Root:
@@ -102,7 +104,7 @@ def payload_ok(p, text):
     if k == "ctx":
         return re.search(r"\bc%d: Mgr\b" % p[1], text) is not None
     if k == "leaf":
-        return text == "<Mgr 0>"
+        return text == repr(Mgr(0))
     if k == "errhdr":
         return text == "Error while extracting stack:"
     if k == "err":
@@ -132,6 +134,20 @@ def compare_lines(real, exp, table, bad, tag):
             continue
         if not body.startswith(prefix) or not payload_ok(e["p"], body[len(prefix):]):
             bad.append("%s: line %d: %r, spec markers %s payload %s" % (tag, i, r, e["m"], e["p"]))
+            return
+
+
+def same_text(uni, asc, exp, bad):
+    """ascii_only is the SAME text with each prefix marker replaced: after its markers every line reads alike"""
+    if len(uni) != len(exp) or len(asc) != len(exp):
+        return
+    for i, (u, a, e) in enumerate(zip(uni, asc, exp)):
+        if e["p"][0] == "blank":
+            continue
+        pu = "".join(UNI[t] for t in e["m"])
+        pa = "".join(ASC[t] for t in e["m"])
+        if u[len(pu):] != a[len(pa):]:
+            bad.append("line %d: after the markers the ascii_only line reads %r, the default one %r" % (i, a[len(pa):], u[len(pu):]))
             return
 
 
@@ -264,9 +280,11 @@ def main():
         if uni is not None:
             compare_lines(uni, case["lines"], UNI, bad18, "format(unicode)")
             compare_lines(asc, case["lines"], ASC, bad18, "format(ascii_only)")
+            if not bad18:
+                same_text(uni, asc, case["lines"], bad18)
             out["lines_compared"] += 2 * len(case["lines"])
-            if any(ord(ch) > 127 for ln in asc for ch in ln):
-                bad18.append("ascii_only output contains non-ASCII characters")
+            if any(ord(ch) > 127 for ln in asc for ch in ln) and not any(ord(ch) > 127 and ch not in BOX for ln in uni for ch in ln):
+                bad18.append("ascii_only output contains non-ASCII characters although names, source and reprs are ASCII")
             if sc and not sh:
                 with ambient_stdout(out["n"]) as kind:
                     text = str(st)
